@@ -58,6 +58,8 @@ def busy_vars(h, ai):
     for w in a["workers"]:
         bi = _get(w, "_busy_intervals")
         if task not in bi:
+            if hasattr(w, "_cumulative_workers"):
+                continue  # a cumulative worker listed in a selection is busy through its elementary workers
             raise HarnessError(f"adapter: no busy interval for {w.name}/{task.name}")
         out[w.name] = bi[task]
     return out
